@@ -186,6 +186,12 @@ against `runGo G`, and that lifting is not available:
    `zero G` and `zero (eliminateDeadVars G)` are unrelated terms although the struct declarations
    they read are the same — no theorem can connect runs in two different files until `zero` is
    made total (a change of the shared semantics `Model/GoSem.lean`, not made here);
+ * `dce_preserves_body` wants `scopeErrs D (keys ρ) body = []` for the ACTUAL parameter
+   environment; `Go.Sem.callG` zips parameters with arguments, so a call through a function value
+   with too few arguments (impossible in typed Go, possible in the untyped `Go.Sem`) runs the body
+   in a smaller environment than the one the contract was checked for — the per-function contract
+   does not transfer to dynamic calls without an arity rule in `Go.Sem` or a re-proved block
+   theorem;
  * `prune_dead_functions` additionally needs the invariant that every function value reachable
    from `main` names a function in the reachable set (`Dce.prune_funcs_closed` is its syntactic
    half).
